@@ -208,6 +208,16 @@ Section ABF.
     | z0 :: others => fold_left grid_add others z0
     end.
 
+  (* a walker of shared eABF: the three grids of shared ABF, its z grids (CZAR) and, on replica 0, the gathered
+     z grids; replica_share_CZAR() (run by write_output_files() on every replica, i.e. between two exchanges)
+     must change nothing but replica 0's gathered grids -- in particular not the snapshot last_* *)
+  Record ewalker := mkEW { e_w : walker; e_z : grid; e_gz : grid }.
+  Definition czar_gather_step (ws : list ewalker) : list ewalker :=
+    match ws with
+    | [] => []
+    | r :: others => mkEW (e_w r) (e_z r) (czar_gather (map e_z ws)) :: others
+    end.
+
   (* ---- specification side: the sampling history, kept per walker as
      (samples already exchanged, samples collected since the last exchange) *)
   Definition sample := (Z * A)%type.
@@ -314,30 +324,41 @@ Record writer := mkWr {
   w_vis : Z;             (* how many complete records of that file a reader finds (any prefix) *)
   w_lost : list hill;    (* records of a hills file that has just been removed and that the state file in place does
                             not cover yet (between the two halves of write_state_to_replicas); nobody can read them *)
-  w_sok : bool           (* the state file is completely visible to a reader (false: it sees a proper prefix of it) *)
+  w_sok : bool;          (* the state file is completely visible to a reader (false: it sees a proper prefix of it) *)
+  w_rv : Z;              (* what a reader finds of this walker's record in the registry: 0 nothing, 2 all of it, anything
+                            else a record cut inside the name of the list file *)
+  w_lv : Z               (* ... and of its list file: 0 nothing usable (absent, or cut before the end of the state file
+                            name), 2 all of it, anything else = the state file name and a hills file name cut short
+                            (different values: cut at different places) *)
 }.
 
-Definition wr_init : writer := mkWr [] false 0 (mkSF 0 []) [] 0 [] true.
+Definition wr_init : writer := mkWr [] false 0 (mkSF 0 []) [] 0 [] true 2 2.
 
 (* update_bias(): add_hill + write_hill to the replica hills file (buffered) *)
 Definition wr_deposit (w : writer) (h : hill) : writer :=
-  mkWr (w_D w ++ [h]) (w_reg w) (w_name w) (w_state w) (w_file w ++ [h]) (w_vis w) (w_lost w) (w_sok w).
+  mkWr (w_D w ++ [h]) (w_reg w) (w_name w) (w_state w) (w_file w ++ [h]) (w_vis w) (w_lost w) (w_sok w) (w_rv w) (w_lv w).
 
 (* what a reader sees of the hills file: flushes, page write-back, network file systems... any prefix *)
 Definition wr_vis (w : writer) (c : Z) : writer :=
   mkWr (w_D w) (w_reg w) (w_name w) (w_state w) (w_file w)
-       (Z.max 0 (Z.min c (Z.of_nat (length (w_file w))))) (w_lost w) (w_sok w).
+       (Z.max 0 (Z.min c (Z.of_nat (length (w_file w))))) (w_lost w) (w_sok w) (w_rv w) (w_lv w).
+
+(* ... of the registry record and of the list file of this walker *)
+Definition wr_rvis (w : writer) (k : Z) : writer :=
+  mkWr (w_D w) (w_reg w) (w_name w) (w_state w) (w_file w) (w_vis w) (w_lost w) (w_sok w) k (w_lv w).
+Definition wr_lvis (w : writer) (k : Z) : writer :=
+  mkWr (w_D w) (w_reg w) (w_name w) (w_state w) (w_file w) (w_vis w) (w_lost w) (w_sok w) (w_rv w) k.
 
 (* ... and of the state file: all of it, or a proper prefix *)
 Definition wr_svis (w : writer) (b : bool) : writer :=
-  mkWr (w_D w) (w_reg w) (w_name w) (w_state w) (w_file w) (w_vis w) (w_lost w) b.
+  mkWr (w_D w) (w_reg w) (w_name w) (w_state w) (w_file w) (w_vis w) (w_lost w) b (w_rv w) (w_lv w).
 
-(* read_hill_template_(): a record with h_it <= state_file_step is parsed and dropped *)
-Definition keep (S : Z) (h : hill) : bool := S <? hit h.
+(* read_hill_template_(): a record with h_it < state_file_step is parsed and dropped (<= before repair 11) *)
+Definition keep (S : Z) (h : hill) : bool := S <=? hit h.
 
 (* write_state_to_replicas() as one event: the hills file is restarted and the state file written *)
 Definition wr_state (w : writer) (S : Z) : writer :=
-  mkWr (w_D w) (w_reg w) (w_name w) (mkSF S (w_D w)) [] 0 [] true.
+  mkWr (w_D w) (w_reg w) (w_name w) (mkSF S (w_D w)) [] 0 [] true (w_rv w) (w_lv w).
 
 (* its two halves, as a reader on another machine may find them.
    (b) reopen_replica_buffer_file(): the hills file is removed and created again; what it held and the state
@@ -345,27 +366,31 @@ Definition wr_state (w : writer) (S : Z) : writer :=
    (a) write_replica_state_file(): the state file is renamed into place.
    Since repair 8 the code runs (b) then (a); before, (a) then (b). *)
 Definition wr_state_b (w : writer) : writer :=
-  mkWr (w_D w) (w_reg w) (w_name w) (w_state w) [] 0
-       (w_lost w ++ filter (keep (sf_step (w_state w))) (w_file w)) (w_sok w).
+  let f := w_lost w ++ w_file w in
+  (* how many of these records the state file in place already holds (all of them in the old order, none in the new) *)
+  let covered := (length (sf_hills (w_state w)) + length f - length (w_D w))%nat in
+  mkWr (w_D w) (w_reg w) (w_name w) (w_state w) [] 0 (skipn covered f) (w_sok w) (w_rv w) (w_lv w).
 Definition wr_state_a (w : writer) (S : Z) : writer :=
-  mkWr (w_D w) (w_reg w) (w_name w) (mkSF S (w_D w)) (w_file w) (w_vis w) [] true.
+  mkWr (w_D w) (w_reg w) (w_name w) (mkSF S (w_D w)) (w_file w) (w_vis w) [] true (w_rv w) (w_lv w).
 
 (* setup_output() at the start of a run (first one, restart, new output prefix): new hills file,
    state file, list file, record in the registry *)
 Definition wr_setup (w : writer) (S : Z) (newname : bool) : writer :=
-  mkWr (w_D w) true (if newname then w_name w + 1 else w_name w) (mkSF S (w_D w)) [] 0 [] true.
+  mkWr (w_D w) true (if newname then w_name w + 1 else w_name w) (mkSF S (w_D w)) [] 0 [] true 2 2.
 
 (* the mirror bias that a reader keeps for one peer (replicas[ir]) *)
 Record mirror := mkM {
-  m_name : option Z;     (* replica_state_file / replica_hills_file last taken from the list file ("" = None) *)
+  m_name : option Z;     (* replica_state_file last taken from the list file ("" = None) *)
   m_sync : bool;         (* replica_state_file_in_sync *)
   m_has : bool;          (* has_data *)
   m_pos : Z;             (* replica_hills_file_pos, in records (all records of a replica have one length) *)
   m_S : Z;               (* state_file_step *)
-  m_cont : list hill     (* hills represented in the mirror: its grids plus its hills list *)
+  m_cont : list hill;    (* hills represented in the mirror: its grids plus its hills list *)
+  m_lf : bool;           (* replica_list_file is the peer's list file (false: a name cut short, nothing can be read from it) *)
+  m_hf : Z               (* replica_hills_file: 2 = the peer's hills file, 0 = none yet, anything else = a name cut short *)
 }.
 
-Definition m_new : mirror := mkM None false false 0 0 [].
+Definition m_new : mirror := mkM None false false 0 0 [] false 0.
 
 Definition name_is (o : option Z) (n : Z) : bool :=
   match o with Some k => k =? n | None => false end.
@@ -374,41 +399,63 @@ Definition name_is (o : option Z) (n : Z) : bool :=
 Definition sub (l : list hill) (a b : Z) : list hill :=
   firstn (Z.to_nat (b - a)) (skipn (Z.to_nat a) l).
 
-(* One replica_share() of the reader as far as this peer is concerned.
+(* update_replicas_registry(): the record of the peer in the registry (a new one => a new mirror; the list file name
+   is taken from the record at every update, repair 4) and the peer's list file (both file names are taken whenever
+   either differs from what the mirror knows, repair 6; a new name schedules a reread).  Only what the mirror knows
+   about file names changes here. *)
+Definition share_names (w : writer) (om : option mirror) : option mirror :=
+  (* the registry *)
+  let om0 := if w_reg w && negb (w_rv w =? 0)
+             then let m := match om with None => m_new | Some m => m end in
+                  Some (mkM (m_name m) (m_sync m) (m_has m) (m_pos m) (m_S m) (m_cont m) (w_rv w =? 2) (m_hf m))
+             else om in
+  (* the list file of every replica already known *)
+  match om0 with
+  | None => None
+  | Some m0 =>
+      if m_lf m0 && negb (w_lv w =? 0) && negb (name_is (m_name m0) (w_name w) && (m_hf m0 =? w_lv w))
+      then Some (mkM (Some (w_name w)) false (m_has m0) (m_pos m0) (m_S m0) (m_cont m0) (m_lf m0) (w_lv w))
+      else Some m0
+  end.
+
+(* read_replica_files() for one peer.
    fix1: the read position is reset when the state file has been read (repair 1);
    fix2: a state file rewritten under the same name is noticed by its step number (repair 2).
    With both false this is the code as it was. *)
-Definition share (fix1 fix2 : bool) (w : writer) (om : option mirror) : option mirror :=
-  if negb (w_reg w) then om else
-  (* update_replicas_registry(): new record in the registry => new mirror *)
-  let m0 := match om with None => m_new | Some m => m end in
-  (* ... and the list file: a new state file name schedules a reread *)
-  let m1 := if name_is (m_name m0) (w_name w) then m0
-            else mkM (Some (w_name w)) false (m_has m0) (m_pos m0) (m_S m0) (m_cont m0) in
-  (* read_replica_files(): (repair 9) a state file that is not all there: nothing of this replica is read now *)
-  if negb (w_sok w) then Some m1 else
+Definition share_read (fix1 fix2 : bool) (w : writer) (m1 : mirror) : mirror :=
+  match m_name m1 with
+  | None => m1           (* no state file name yet: "the state file of replica .. is currently undefined" *)
+  | Some _ =>
+  (* (repair 9) a state file that is not all there: nothing of this replica is read now *)
+  if negb (w_sok w) then m1 else
   (* (repair 2) compare the step recorded in the state file *)
   let m2 := if fix2 && m_has m1 && m_sync m1 && negb (sf_step (w_state w) =? m_S m1)
-            then mkM (m_name m1) false (m_has m1) (m_pos m1) (m_S m1) (m_cont m1) else m1 in
+            then mkM (m_name m1) false (m_has m1) (m_pos m1) (m_S m1) (m_cont m1) (m_lf m1) (m_hf m1) else m1 in
   (* (re)read the state file if necessary: grids replaced, hills list pruned *)
   let m3 := if negb (m_has m2) || negb (m_sync m2)
             then mkM (m_name m2) true true (if fix1 then 0 else m_pos m2)
-                     (sf_step (w_state w)) (sf_hills (w_state w))
+                     (sf_step (w_state w)) (sf_hills (w_state w)) (m_lf m2) (m_hf m2)
             else m2 in
-  (* if (!in_sync) pos = 0: never taken here, reading the state file succeeds *)
-  (* read complete records from the stored position *)
+  (* read complete records of the hills file from the stored position -- if the mirror knows its name *)
   let c := w_vis w in
-  let m4 := if m_pos m3 <=? c
-            then mkM (m_name m3) (m_sync m3) true c (m_S m3)
-                     (m_cont m3 ++ filter (keep (m_S m3)) (sub (w_file w) (m_pos m3) c))
-            else m3 in
-  Some m4.
+  if (m_hf m3 =? 2) && (m_pos m3 <=? c)
+  then mkM (m_name m3) (m_sync m3) true c (m_S m3)
+           (m_cont m3 ++ filter (keep (m_S m3)) (sub (w_file w) (m_pos m3) c)) (m_lf m3) (m_hf m3)
+  else m3
+  end.
+
+(* One replica_share() of the reader as far as this peer is concerned. *)
+Definition share (fix1 fix2 : bool) (w : writer) (om : option mirror) : option mirror :=
+  match share_names w om with
+  | None => None
+  | Some m1 => Some (share_read fix1 fix2 w m1)
+  end.
 
 (* the reader writes its own state (write_state_to_replicas): every mirror is scheduled for a reread *)
 Definition m_unsync (om : option mirror) : option mirror :=
   match om with
   | None => None
-  | Some m => Some (mkM (m_name m) false (m_has m) (m_pos m) (m_S m) (m_cont m))
+  | Some m => Some (mkM (m_name m) false (m_has m) (m_pos m) (m_S m) (m_cont m) (m_lf m) (m_hf m))
   end.
 
 Inductive pev : Type :=
@@ -418,6 +465,8 @@ Inductive pev : Type :=
 | PWStateA (St : Z)                  (* writer: the half of it that renames the state file into place *)
 | PWStateB                           (* writer: the half that removes the hills file and creates it again *)
 | PSVis (b : bool)                   (* the reader sees all of the writer's state file (true) or a proper prefix *)
+| PRVis (k : Z)                      (* ... of its record in the registry: 0 nothing, 2 all, else cut *)
+| PLVis (k : Z)                      (* ... of its list file: 0 nothing usable, 2 all, else the hills file name cut *)
 | PSetup (St : Z) (newname : bool)   (* writer: setup_output() at step S, possibly with a new output prefix *)
 | RShare                             (* reader: replica_share() *)
 | RWState                            (* reader: its own write_state_to_replicas() *)
@@ -434,6 +483,8 @@ Definition pstep (fix1 fix2 : bool) (st : pstate) (e : pev) : pstate :=
   | PWStateA s => (wr_state_a w s, m)
   | PWStateB => (wr_state_b w, m)
   | PSVis b => (wr_svis w b, m)
+  | PRVis k => (wr_rvis w k, m)
+  | PLVis k => (wr_lvis w k, m)
   | PSetup s nn => (wr_setup w s nn, m)
   | RShare => (w, share fix1 fix2 w m)
   | RWState => (w, m_unsync m)
@@ -448,22 +499,26 @@ Definition pinit : pstate := (wr_init, None).
 (* every record of the hills file is later than the state file (false only in the old protocol, between the
    renaming of the state file and the restart of the hills file) *)
 Definition file_fresh (w : writer) : bool :=
-  forallb (fun h => sf_step (w_state w) <? hit h) (w_file w).
-
-Definition steps_ok (w : writer) (s : Z) : bool :=
-  (sf_step (w_state w) <=? s) && forallb (fun x => hit x <=? s) (w_D w).
+  forallb (fun h => sf_step (w_state w) <=? hit h) (w_file w).
 
 Definition is_nil (l : list hill) : bool := match l with [] => true | _ => false end.
 
+(* a state file written at step s: not before the state file in place nor before any hill, and at a later step than
+   the state file in place unless nothing was deposited since (two state files with the same step hold the same) *)
+Definition steps_ok (w : writer) (s : Z) : bool :=
+  (sf_step (w_state w) <=? s) && forallb (fun x => hit x <=? s) (w_D w) &&
+  ((sf_step (w_state w) <? s) || (is_nil (w_lost w) && is_nil (w_file w))).
+
 (* What is assumed of a trace: facts about how a walker numbers its own steps and orders its own actions.
-   A hill is deposited at a later step than the state file in place, and not in the middle of a state-file
-   rewrite; a state file is written at a step not before any hill in it and not before the previous state file.
+   A hill is deposited at a step not before the state file in place (at the same step: stepZeroData at the first
+   step of a run), and not in the middle of a state-file rewrite; a state file is written at a step not before any
+   hill in it and after the previous state file (or at the same step with nothing deposited in between).
    proto = true: write_state_to_replicas() restarts the hills file first and then renames the state file
    (PWStateB, PWStateA; the code since repair 8); proto = false: the other way round (the code before).
    NOTHING is assumed of the reader: it may exchange at any moment, also between the two halves. *)
 Definition ev_ok (proto : bool) (w : writer) (e : pev) : bool :=
   match e with
-  | PDeposit h => is_nil (w_lost w) && file_fresh w && (sf_step (w_state w) <? hit h)
+  | PDeposit h => is_nil (w_lost w) && file_fresh w && (sf_step (w_state w) <=? hit h)
   | PWState s | PSetup s _ => is_nil (w_lost w) && file_fresh w && steps_ok w s
   | PWStateB => if proto then file_fresh w else negb (file_fresh w) || is_nil (w_file w)
   | PWStateA s => if proto then is_nil (w_file w) && steps_ok w s
@@ -487,7 +542,7 @@ Fixpoint prefixb (l1 l2 : list hill) : bool :=
 
 (* everything of the peer that the reader can see: the state file and the visible records *)
 Definition visible (w : writer) : list hill :=
-  if w_sok w then sf_hills (w_state w) ++ firstn (Z.to_nat (w_vis w)) (w_file w) else [].
+  if w_sok w && (w_rv w =? 2) && (w_lv w =? 2) then sf_hills (w_state w) ++ firstn (Z.to_nat (w_vis w)) (w_file w) else [].
 
 (* ------------------------------------------------------------------------------------------- *)
 (* (c) n walkers, each both writer and reader of every other one                                *)
@@ -502,6 +557,8 @@ Inductive sev : Type :=
 | SDeposit (i : nat) (h : hill)
 | SVis (i : nat) (c : Z)
 | SSVis (i : nat) (b : bool)
+| SRVis (i : nat) (k : Z)
+| SLVis (i : nat) (k : Z)
 | SWState (i : nat) (St : Z)             (* write_state_to_replicas() of walker i as one event *)
 | SWStateB (i : nat)                     (* its first half: hills file restarted *)
 | SWStateA (i : nat) (St : Z)            (* its second half: state file renamed; mirrors of i scheduled for a reread *)
@@ -524,6 +581,8 @@ Definition sys_step (s : sys) (e : sev) : sys :=
   | SDeposit i h => upd_nth i (on_writer (fun w => wr_deposit w h)) s
   | SVis i c => upd_nth i (on_writer (fun w => wr_vis w c)) s
   | SSVis i b => upd_nth i (on_writer (fun w => wr_svis w b)) s
+  | SRVis i k => upd_nth i (on_writer (fun w => wr_rvis w k)) s
+  | SLVis i k => upd_nth i (on_writer (fun w => wr_lvis w k)) s
   | SWState i t => upd_nth i (fun x => unsync_all (on_writer (fun w => wr_state w t) x)) s
   | SWStateB i => upd_nth i (on_writer wr_state_b) s
   | SWStateA i t => upd_nth i (fun x => unsync_all (on_writer (fun w => wr_state_a w t) x)) s
@@ -545,6 +604,8 @@ Definition pproj (r p : nat) (e : sev) : list pev :=
   | SDeposit i h => if Nat.eqb i p then [PDeposit h] else []
   | SVis i c => if Nat.eqb i p then [PVis c] else []
   | SSVis i b => if Nat.eqb i p then [PSVis b] else []
+  | SRVis i k => if Nat.eqb i p then [PRVis k] else []
+  | SLVis i k => if Nat.eqb i p then [PLVis k] else []
   | SWState i t => (if Nat.eqb i p then [PWState t] else []) ++ (if Nat.eqb i r then [RWState] else [])
   | SWStateB i => if Nat.eqb i p then [PWStateB] else []
   | SWStateA i t => (if Nat.eqb i p then [PWStateA t] else []) ++ (if Nat.eqb i r then [RWState] else [])
